@@ -179,6 +179,39 @@ class AgentWorld(object):
         self.contacts.append(con)
         return con
 
+    def late_connect(self):
+        ''' The user (or the BP adaptor, for a bundle that needs a session) asks the agent to connect now:
+        D-Bus method Agent.connect. '''
+        import tcpcl.agent
+        index = len(self.contacts)
+        con = Contact(index, 'late', False)
+        addr = '10.0.2.%d' % (index + 1)
+
+        class Facade(object):
+            def socket(self_inner, *_a, **_k):
+                con.real_sock.connect = lambda _addr: None
+                return con.real_sock
+
+            def __getattr__(self_inner, name):
+                import socket
+                return getattr(socket, name)
+        saved = tcpcl.agent.socket
+        tcpcl.agent.socket = Facade()
+        try:
+            res = self.call_agent('connect', addr, dbus.UInt16(4556))
+        finally:
+            tcpcl.agent.socket = saved
+        if hasattr(res, 'exc'):
+            con.refused = res
+            con.hdl = None
+            con.real_sock.close()
+        else:
+            con.refused = None
+            con.hdl = self.end.agent.handler_for_path(res)
+        con.level = 'full'
+        self.contacts.append(con)
+        return con
+
     def release(self):
         for con in self.contacts:
             con.level = 'frozen' if con.index in self.hang else 'full'
